@@ -370,6 +370,7 @@ func runC06(c *CaseCtx) (res CaseResult) {
 	if r.Intn(100) < 12 {
 		return runC06Malformed(c, r)
 	}
+	denseCases = c.Tier == "thorough"
 	s, fam := pickGeneralMix(r)
 	res.Key = s.Key()
 	res.NonTrivial = len(s.Convs) >= 2 || strings.HasPrefix(fam, "hostile")
